@@ -2,6 +2,7 @@ import ShootVerif.Model.Opt
 import ShootVerif.Proofs.CtorMain
 import ShootVerif.Proofs.Alloc
 import ShootVerif.Proofs.AllocMap
+import ShootVerif.Proofs.TypeMap
 /-!
 C13 — with -opt every field gets an option function that sets exactly that field; SetDefault
 assigns each `def=` value; T.With(opts…) and shoot.NewWith(opts…) apply the defaults first and then
@@ -97,6 +98,19 @@ theorem C13_options_are_visible_leaves (t : Tree) :
   rw [walk_fields _ t true [] false 0, List.filter_map, List.map_map]
   unfold nonSkipped leavesTop genShadow walkTop
   congr 1
+
+/-- the parameter type of every option function is the type of the field it sets: for each entry of AllList the
+    name-keyed `TypeMap` of makeNew (`{{index $.TypeMap .}}` in the template; Model/TypeMap.lean) holds the printed type
+    of the visible leaf of that name — provided the visible field names are pairwise distinct -/
+theorem C13_option_types (t : Tree) (hnd : wfFieldNames t = true) :
+    ∀ n ∈ allList (flatten t), ∃ l ∈ leavesTop t, l.info.name = n ∧ l.info.skip = false ∧
+      genShadow t l.depth l.info.name = false ∧ typeMap (flatten t) n = some l.info.ptype := by
+  intro n hn
+  rw [C13_options_are_visible_leaves, List.mem_map] at hn
+  obtain ⟨l, hl, rfl⟩ := hn
+  simp only [nonSkipped, List.mem_filter, Bool.not_eq_true'] at hl
+  obtain ⟨⟨hl1, hsk⟩, hsh⟩ := hl
+  exact ⟨l, hl1, rfl, hsk, hsh, typeMap_of_leaf t hnd l hl1 hsk hsh⟩
 
 /-- option names: `<Pascal field>Of<Type>`, or `<Pascal field>` with -short -/
 theorem C13_names (short : Bool) (ty f : String) :
